@@ -2,6 +2,7 @@
 from mir import op_place, place_str
 import templates as T
 from core import path_descr, AnchorMissing
+from props import common
 
 LEVEL = "other"
 CONFIGS = ["full", "book", "default"]
@@ -31,6 +32,8 @@ def close_rules(ck, C):
         ck.anchor_missing(C, "T4-guarded-by", "PingSource::process_events: decode closure")
         return None
     cl = cl[0]
+    # the counter may be decoded in this closure or in the reading function it calls: analyse both as one
+    cl = f.deep_view(cl, lambda cb: cb.file.endswith("ping/eventfd.rs") and cb.kind in ("Fn", "AssocFn"))
     K = f.const_value("sources::ping::eventfd::INCREMENT_CLOSE")
     rets = T.ok_returns(cl)
     rm = [i for i, v in rets if v == {("sources::PostAction", "Remove")}]
@@ -55,8 +58,12 @@ def decode_flags(cl):
     K = f.const_value("sources::ping::eventfd::INCREMENT_CLOSE")
     P = f.const_value("sources::ping::eventfd::INCREMENT_PING")
     drains = T.calls(cl, name="drain_ping")
+    if not drains:
+        # the reading function is inlined in this view: the counter is what from_ne_bytes assembles from the bytes read
+        drains = [c for c in T.calls(cl, name=("from_ne_bytes", "from_le_bytes")) if not cl.is_cleanup(c.bb)]
     out = {"masks": [], "switches": [], "drains": drains}
     flag_locals = {}
+    flag_stmts = {}
     for i, j, st in cl.statements():
         if st["s"] != "assign" or st["rv"]["r"] != "bin" or st["rv"]["op"] not in ("Ne", "Eq"):
             continue
@@ -76,13 +83,23 @@ def decode_flags(cl):
                         kind = "close" if (K is not None and m & K) else ("ping" if (P is not None and m & P) else "?")
                         out["masks"].append((kind, m, i))
                         flag_locals[st["pl"]["l"]] = (kind, rv["op"] == "Ne")
+                        flag_stmts[(i, j)] = (kind, rv["op"] == "Ne")
     for sw, blk in enumerate(cl.blocks):
         if blk["term"]["t"] != "switch" or cl.is_cleanup(sw):
             continue
+        hit = False
         for l in T.copy_chain_locals(cl, blk["term"]["on"]):
             if l in flag_locals:
                 kind, ne = flag_locals[l]
                 out["switches"].append((sw, ne, kind))
+                hit = True
+        if not hit:
+            # the flag travelled through a struct / Result built around it (a reading function that returns the decoded
+            # pair): the switch operand resolves to the comparison itself
+            for r, p in cl.resolve(blk["term"]["on"]):
+                if r[0] == "rv" and not p and (r[1], r[2]) in flag_stmts:
+                    kind, ne = flag_stmts[(r[1], r[2])]
+                    out["switches"].append((sw, ne, kind))
     return out
 
 
@@ -116,18 +133,20 @@ def run(ck):
 
     # ---- clause 2: who writes what ----------------------------------------------------------------------
     writers = {"close": set(), "ping": set(), "other": set()}
+    wfn = common.eventfd_writer(f)
     for b in f.bodies.values():
-        for cs in T.calls(b, name="send_ping"):
-            v = T.const_value(b, cs.args[1])
-            src = T.const_name(b, cs.args[1])
+        if wfn is not None and b is wfn[0]:
+            continue
+        for bb_, amount in common.eventfd_writes(f, b):
+            v = T.const_value(b, amount)
             kind = "close" if v == K else ("ping" if v == P else "other")
             writers[kind].add(b.qual)
     ck.verdict(writers["close"] == {"<FlagOnDrop as Drop>::drop"}, "2", "T7-who-may-write", "<FlagOnDrop as Drop>::drop", "close-marker-writer", "the close marker is written only by FlagOnDrop::drop", "the close marker is written by %s (it must be written exactly once, by the drop of the last handle)" % sorted(writers["close"]), site="src/sources/ping/eventfd.rs")
     ck.verdict(writers["ping"] == {"Ping::ping"} and not writers["other"], "2", "T7-who-may-write", "Ping::ping", "ping-writer", "pings are written only by Ping::ping", "counter increments are written by %s / other values by %s" % (sorted(writers["ping"]), sorted(writers["other"])), site="src/sources/ping/eventfd.rs")
     pg = ck.opt_body("Ping::ping")
     if pg is not None:
-        sp = T.calls(pg, name="send_ping")
-        bad = T.t2_all_exits(pg, [0], [c.bb for c in sp]) if sp else [0]
+        sp = [bb_ for bb_, amount in common.eventfd_writes(f, pg)]
+        bad = T.t2_all_exits(pg, [0], sp) if sp else [0]
         ck.verdict(bad is None, "2", "T2-all-exits", pg, "ping-always-writes", "every call of ping() writes to the eventfd (no suppression state that could swallow a ping)", "Ping::ping can return without writing to the eventfd: a ping issued while a suppression flag is set is lost", site=pg.where())
     clone_impls = [i for i in f.impls if i.get("trait") == "std::clone::Clone" and "FlagOnDrop" in i["self_s"]]
     ck.verdict(not clone_impls, "2", "T9-layout", "sources::ping::eventfd::FlagOnDrop", "FlagOnDrop-not-Clone", "FlagOnDrop has no Clone impl (one drop = one close marker)", "FlagOnDrop is Clone: every clone writes its own close marker", site="src/sources/ping/eventfd.rs")
@@ -166,7 +185,7 @@ def run(ck):
             ck.verdict(bad is None, "3", "T2-all-exits", cl, "ping-bits=>callback", "whenever ping bits were drained the callback is invoked", "pings can be drained without the callback being invoked (lost ping)", site=cl.where(cb.bb))
 
     # ---- clause 4: saturated counter ---------------------------------------------------------------------------
-    sp = ck.opt_body("sources::ping::eventfd::send_ping")
+    sp = wfn[0] if wfn is not None else None
     if sp is None:
         ck.anchor_missing("4", "T12-error-discipline", "send_ping")
     else:
@@ -210,7 +229,7 @@ def run(ck):
         ck.verdict(bool(fl_), "5", "T6-provenance", mk, "creates-eventfd", "make_ping creates an eventfd", "make_ping does not create an eventfd", site=mk.where(), nontrivial=False)
     # the ping source keeps its registration state (Generic's token/poller) in step with the poller:
     # it is recorded only by a successful registration and never dropped by a failed one (shared with C15.4)
-    from props import C15, common
+    from props import C15
 
     common.import_results(ck, C15, "4", "Generic", "5")
     # the Remove a closed ping source returns is not overridden by a deferred request (shared with C09.2)
